@@ -27,7 +27,7 @@ func (c12) Size(tier string) Size {
 	return Size{Batches: 4, Cases: 10}
 }
 func (c12) Rule() string {
-	return "binary built with -race (GORACE halt_on_error=0, log files counted, not the exit code). case = scenario: random schema of struct-backed and soft types (incl. soft types with nil maps) built once, then per goroutine a private list of operations from {NewURLFromRaw, NewRequest, UnmarshalDocument, UnmarshalPartialResource, GetType(n).New()+Set, MarshalDocument of a goroutine-private document made of resources of the shared types, GetType, HasType, Check, Rels}. Phase 0 (cold start): several brand-new copies of the schema are FIRST used by up to 16 goroutines at once (each starts by creating a resource of every type), so lazily initialised shared state is initialised under contention. Phase A (sequential): every op once, result fingerprint recorded, deep reflective fingerprint of the schema (exported and unexported state) compared before/after EACH op. Phase B: G in {2,4,8,16} goroutines with GOMAXPROCS in {2,16}, released together, each running its list N times into private buffers (no shared monitor state). Phase C: every concurrent result equals its sequential baseline; schema fingerprint unchanged; race log files parsed and deduplicated by the pair of outermost library frames. Payloads carry a resource-level meta object; objects returned by NewURLFromRaw / NewRequest / Unmarshal* are kept by the goroutine and read again three calls later (a returned object belongs to its caller: a later call must not change it), sequentially and concurrently. Directed: a hand-assembled schema (type literals, one name used by an attribute and a relationship, a relationship without FromType) goes through every read-only operation but marshaling, fingerprint after each, then 8 goroutines on brand-new copies. Non-trivial = scenario with >= 2 goroutines and >= 3 distinct op kinds; distinct = scenario hash."
+	return "binary built with -race (GORACE halt_on_error=0, log files counted, not the exit code). case = scenario: random schema of struct-backed and soft types (incl. soft types with nil maps) built once, then per goroutine a private list of operations from {NewURLFromRaw, NewRequest, UnmarshalDocument, UnmarshalPartialResource, GetType(n).New()+Set, MarshalDocument of a goroutine-private document made of resources of the shared types, a SoftCollection typed with what GetType returns, filled with resources of that type and marshaled, GetType, HasType, Check, Rels}. Phase 0 (cold start): several brand-new copies of the schema are FIRST used by up to 16 goroutines at once (each starts by creating a resource of every type), so lazily initialised shared state is initialised under contention. Phase A (sequential): every op once, result fingerprint recorded, deep reflective fingerprint of the schema (exported and unexported state) compared before/after EACH op. Phase B: G in {2,4,8,16} goroutines with GOMAXPROCS in {2,16}, released together, each running its list N times into private buffers (no shared monitor state). Phase C: every concurrent result equals its sequential baseline; schema fingerprint unchanged; race log files parsed and deduplicated by the pair of outermost library frames. Payloads carry a resource-level meta object; objects returned by NewURLFromRaw / NewRequest / Unmarshal* are kept by the goroutine and read again three calls later (a returned object belongs to its caller: a later call must not change it), sequentially and concurrently. Directed: a hand-assembled schema (type literals, one name used by an attribute and a relationship, a relationship without FromType) goes through every read-only operation but marshaling, fingerprint after each, then 8 goroutines on brand-new copies. Non-trivial = scenario with >= 2 goroutines and >= 3 distinct op kinds; distinct = scenario hash."
 }
 func (c12) Assumptions() []string {
 	return []string{"the race detector is happens-before based: it reports races between accesses the workload performs, whatever their timing, and nothing about accesses not performed",
@@ -144,7 +144,7 @@ type c12op struct {
 	Names []string `json:"names,omitempty"`
 }
 
-var c12kinds = []string{"NewURLFromRaw", "NewRequest", "UnmarshalDocument", "UnmarshalPartialResource", "New+Set", "Types[i].New", "MarshalDocument", "GetType", "HasType", "Check", "Rels", "RejectedBody", "Echo"}
+var c12kinds = []string{"NewURLFromRaw", "NewRequest", "UnmarshalDocument", "UnmarshalPartialResource", "New+Set", "Types[i].New", "MarshalDocument", "GetType", "HasType", "Check", "Rels", "RejectedBody", "Echo", "Collect"}
 
 // exec runs one op against the shared schema and returns a result fingerprint.
 func (o *c12op) exec(s *SchemaSpec, schema *jsonapi.Schema) string {
@@ -316,6 +316,26 @@ func (o *c12op) execRest(s *SchemaSpec, schema *jsonapi.Schema) string {
 			return "err:" + err.Error()
 		}
 		return digest(out)
+	case "Collect":
+		// the usual way to answer a collection request for a type of the schema: a SoftCollection typed with
+		// what GetType returns, filled with resources of that type, marshaled
+		typ := schema.GetType(o.Type)
+		col := &jsonapi.SoftCollection{}
+		col.SetType(&typ)
+		for _, rs := range o.Doc.Primary {
+			res := typ.New()
+			applySpec(res, s.Type(rs.Type), rs)
+			col.Add(res)
+		}
+		u, err := jsonapi.NewURLFromRaw(schema, "/"+o.Type)
+		if err != nil {
+			return "err:" + err.Error()
+		}
+		out, err := jsonapi.MarshalDocument(&jsonapi.Document{Data: col, PrePath: "/", RelData: copyStrMap(o.Doc.RelData)}, u)
+		if err != nil {
+			return "err:" + err.Error()
+		}
+		return fmt.Sprint(col.Len(), ":", digest(out))
 	case "GetType":
 		var sb strings.Builder
 		for _, n := range o.Names {
@@ -466,6 +486,13 @@ func (m c12) genOps(r *RNG, s *SchemaSpec, n int) []c12op {
 			}
 			for _, tt := range s.Types {
 				d.RelData[tt.Name] = tt.RelNames()
+			}
+			o.Doc = d
+		case "Collect":
+			o.Type = t.Name
+			d := &DocSpec{Schema: s, Prefix: "/", RelData: map[string][]string{t.Name: t.RelNames()}, Frags: []string{t.Name}}
+			for j := r.Range(1, 4); j > 0; j-- {
+				d.Primary = append(d.Primary, genResource(r, t, fmt.Sprint("c", j)))
 			}
 			o.Doc = d
 		case "GetType", "HasType":
